@@ -550,6 +550,9 @@ RotSeq(S, k) == [i \in 1..Len(S) |-> S[((i - 1 + k) % Len(S)) + 1]]
 PermsOf(S) == {V([i \in 1..Len(S) |-> S[f[i]]]) : f \in {g \in [1..Len(S) -> 1..Len(S)] : \A i, j \in 1..Len(S) : i # j => g[i] # g[j]}}
 Orders(S) == (IF All THEN PermsOf(S) ELSE {V(RevSeq(S))} \cup {V(RotSeq(S, k)) : k \in 1..(Len(S) - 1)}) \ {S}
 
+\* (genuine cases in every other signer order are added; the C09 catalogue is applied to the ascending ones only)
+WithOrders(T) == T \cup UNION {Orders(S) : S \in T}
+
 \* C08: every (n,t), every signer set of size >= t, every message vector (signers ascending) + every other signer order (one vector)
 \*      + the same signer sets and orders with the other party identifier lists (one vector)
 Cases08For(n, t, L) == {Base("ps", n, t, L, Iota(n), S, mv) : S \in SignerSets(n, t), mv \in Vectors(L)}
@@ -559,8 +562,6 @@ Cases08For(n, t, L) == {Base("ps", n, t, L, Iota(n), S, mv) : S \in SignerSets(n
 Cases08 == UNION {Cases08For(nt[1], nt[2], L) : nt \in NT, L \in 1..MaxL}
 
 \* C09 base cases.  BLS additionally with party identifiers that are not 1..n (the Verifier's party -> evaluation point table)
-\* (genuine cases in every other signer order are added; the catalogue is applied to the ascending ones only)
-WithOrders(T) == T \cup UNION {Orders(S) : S \in T}
 BlsBasesFor(n, t) == {Base("bls", n, t, 0, ids, MapIds(ids, S), <<>>) : ids \in IdLists(n), S \in WithOrders(SignerSets(n, t))}
 BlsBases == UNION {BlsBasesFor(nt[1], nt[2]) : nt \in NT}
 PsBasesFor(n, t, L) == {Base("ps", n, t, L, ids, MapIds(ids, S), MvFor(L)) : ids \in IdLists(n), S \in WithOrders(SignerSets(n, t))}
